@@ -1,0 +1,22 @@
+// Copyright (c) Tailscale Inc & AUTHORS
+// SPDX-License-Identifier: BSD-3-Clause
+
+//go:build verif
+
+package server
+
+import (
+	"context"
+
+	"github.com/aws/aws-sdk-go-v2/service/s3"
+	"github.com/tailscale/setec/db"
+)
+
+// VerifRunPeriodicBackup runs the server's unexported periodic backup loop for
+// kdb with the given S3 client and bucket, and returns when the loop returns.
+// It exists only under the "verif" build tag so that external monitors can
+// drive the real loop with an injected S3 client.
+func VerifRunPeriodicBackup(ctx context.Context, kdb *db.DB, client *s3.Client, bucket string) {
+	s := &Server{db: kdb, backupClient: client, backupBucket: bucket}
+	s.periodicBackup(ctx)
+}
